@@ -272,6 +272,9 @@ pub struct Ctx {
     pub panics: Vec<PanicRec>,
     pub roles: BTreeMap<usize, String>,
     pub live_db_threads: usize,
+    /// thread group (= database instance) of every coroutine; children inherit the spawner's
+    pub groups: BTreeMap<usize, u32>,
+    pub live_by_group: BTreeMap<u32, usize>,
     pub spawned_db_threads: u64,
     pub quiesce_waiters: Vec<usize>,
     pub placements: Vec<Placement>,
@@ -293,6 +296,8 @@ impl Ctx {
             panics: Vec::new(),
             roles: BTreeMap::new(),
             live_db_threads: 0,
+            groups: BTreeMap::new(),
+            live_by_group: BTreeMap::new(),
             spawned_db_threads: 0,
             quiesce_waiters: Vec::new(),
             placements: Vec::new(),
